@@ -522,6 +522,11 @@ func main() {
 	for round := 0; round < rounds; round++ {
 		for _, m := range methods {
 			for _, e := range registry {
+				// bare (the deadline error: exercised as kind `deadline` below)
+				if e.name != "context.DeadlineExceeded" {
+					one(m, "reg", e.name)
+					keyed(m, "reg", e.name)
+				}
 				// the same error inside text-preserving wrappers (the deadline error included)
 				if round == 0 {
 					one(m, "same:f", e.name)
@@ -531,12 +536,7 @@ func main() {
 					onek(m, "same:"+randShape(), e.name, boundaryKey())
 					onek(m, "same:"+randShape(), e.name, randKey())
 				}
-				if e.name == "context.DeadlineExceeded" {
-					continue // bare: exercised as kind `deadline`
-				}
-				one(m, "reg", e.name)
-				keyed(m, "reg", e.name)
-				if round == 0 || rng.Chance(20) {
+				if e.name != "context.DeadlineExceeded" && (round == 0 || rng.Chance(20)) {
 					one(m, "wrapped", e.name)
 					one(m, "alias", e.name)
 				}
